@@ -82,7 +82,17 @@ def cost(tier, seed, info):
             # confirm before reporting: measure the two sizes again (more repetitions); noise does not repeat
             res2, _ = timed(f, (pr['n0'], pr['n']), reps=4)
             txt2, pr2 = (None, None) if res2 is None else judge_times(f, res2)
-            out['summary'].setdefault('confirmations', []).append({'family': f, 'first': txt, 'confirmed': bool(txt2)})
+            ctl = None
+            if txt2:
+                # control: a family that is linear by construction (plain literals), same two sizes, measured now; a
+                # loaded machine (cache / memory pressure) inflates the large runs of every family alike
+                resc, _ = timed('plain-literals', (pr['n0'], pr['n']), reps=4)
+                if resc and len(resc) == 2 and len(res2) == 2 and resc[0][2] > 0 and res2[0][2] > 0:
+                    ctl = (resc[1][2] / resc[0][2]) / max(resc[1][1] / max(resc[0][1], 1), 1e-9)      # time growth / length growth
+                    mine = (res2[1][2] / res2[0][2]) / max(res2[1][1] / max(res2[0][1], 1), 1e-9)
+                    if mine < 1.6 * ctl:
+                        txt2 = None
+            out['summary'].setdefault('confirmations', []).append({'family': f, 'first': txt, 'confirmed': bool(txt2), 'control_ratio': ctl})
             if txt2:
                 out['failures'].append(Failure(dict(pr2, mode='time'), 'superlinear-time', txt2))
     # (3) suspects from the work model: search at large sizes (this only runs when the tie is broken)
